@@ -425,6 +425,33 @@ fn rc_parent(h: &RcHandle) -> Option<RcHandle> {
     r
 }
 
+/// Every handle the sink handed out: its RcDom parent link agrees with the model's parent
+/// (including "none" for orphans).  Cheap; run after every direct operation, so that a stale
+/// link is reported by the operation that leaves it behind (a later operation may walk it).
+pub fn handle_links(tee: &Tee) -> Result<(), String> {
+    let handles = tee.handles.borrow();
+    let nodes = tee.model.nodes.borrow();
+    for (id, rc) in handles.iter() {
+        let mp = nodes[*id].parent;
+        let rp = rc_parent(rc);
+        match (mp, rp) {
+            (None, None) => {},
+            (Some(p), Some(r)) => {
+                if let Some(prc) = handles.get(&p) {
+                    if !Rc::ptr_eq(prc, &r) {
+                        return Err(format!("node #{id}: RcDom parent link names a different node than the model's parent #{p}"));
+                    }
+                }
+            },
+            (None, Some(_)) => return Err(format!("node #{id} is an orphan in the model but has a parent link in RcDom")),
+            (Some(p), None) => return Err(format!("node #{id} has parent #{p} in the model but no parent link in RcDom")),
+        }
+    }
+    drop(nodes);
+    drop(handles);
+    Ok(())
+}
+
 pub fn compare(tee: &Tee) -> Result<(), String> {
     if let Some(v) = tee.model.violations.borrow().first() {
         return Err(format!("harness/contract problem while applying the operations: {v}"));
@@ -459,27 +486,7 @@ pub fn compare(tee: &Tee) -> Result<(), String> {
             }
         }
     }
-    // handles the sink handed out: parent link agrees with the model (incl. orphans)
-    let handles = tee.handles.borrow();
-    let nodes = tee.model.nodes.borrow();
-    for (id, rc) in handles.iter() {
-        let mp = nodes[*id].parent;
-        let rp = rc_parent(rc);
-        match (mp, rp) {
-            (None, None) => {},
-            (Some(p), Some(r)) => {
-                if let Some(prc) = handles.get(&p) {
-                    if !Rc::ptr_eq(prc, &r) {
-                        return Err(format!("node #{id}: RcDom parent link names a different node than the model's parent #{p}"));
-                    }
-                }
-            },
-            (None, Some(_)) => return Err(format!("node #{id} is an orphan in the model but has a parent link in RcDom")),
-            (Some(p), None) => return Err(format!("node #{id} has parent #{p} in the model but no parent link in RcDom")),
-        }
-    }
-    drop(nodes);
-    drop(handles);
+    handle_links(tee)?;
     // serializer visits each node once, in document order
     let mut rs = RecSer(vec![]);
     let sh: SerializableHandle = tee.rc.document.clone().into();
@@ -527,6 +534,7 @@ pub fn check(case: &Case, st: &mut Stats) -> Result<(), String> {
                     let o = CanonOpts { dup: false, ..CanonOpts::default() };
                     eprintln!("--- after op #{i} {op:?}\nRC:\n{}MODEL:\n{}", rcdom_canon(&it.tee.rc.document, o), model_canon(&it.tee.model, DOC, o));
                 }
+                handle_links(&it.tee).map_err(|e| format!("after op #{i} {op:?}: {e}"))?;
                 if i % 16 == 15 {
                     compare(&it.tee).map_err(|e| format!("after op #{i} {op:?}: {e}"))?;
                 }
